@@ -427,6 +427,8 @@ func c06(tier string) int {
 	// acknowledged update must be what the table holds).
 	runFaults(run, "C06", tier, false)
 	c06HugeSizes(run)
+	// Upgrade leg: the acknowledged state in a file the earlier release wrote.
+	legacyDBLeg(run, "C06")
 	return run.Finish()
 }
 
